@@ -59,6 +59,18 @@ def gen_cases(tier, seed):
                             for G in (None, "dense", "fd"):
                                 for xg in (False, True):
                                     cases.append(dict(kind="lls", A=A, solver=solver, step=sv, lamda=lam, z=z, proxg=pg, G=G, x=xg))
+    # problems far from unit scale (A -> sa*A, y -> sy*y, l1 weight scaled so that the problem is equivalent): the
+    # documented minimiser is scale-equivariant, a solver with an absolute threshold is not
+    for A in ("real32", "identity"):
+        for solver in (None, "ConjugateGradient", "GradientMethod"):
+            # (only the solvers whose iteration is itself scale-equivariant with default steps; ADMM's rho and PDHG's
+            #  sigma are absolute numbers, so their convergence speed legitimately depends on the scale)
+            for pg in (None, "l1"):
+                if solver == "ConjugateGradient" and pg:
+                    continue
+                for sa, sy in ((1e-4, 1.0), (1.0, 1e-9), (1e4, 1e4), (1e-3, 1e-6)):
+                    cases.append(dict(kind="lls", A=A, solver=solver, step=STEPV[solver][0], lamda=0, z=False, proxg=pg, G=None, x=False,
+                                      scale=[sa, sy]))
     return cases
 
 
@@ -150,12 +162,23 @@ def run_case(case, seed):
     lam = case["lamda"]
     kind = case["proxg"]
     par = PAR.get(kind)
+    sa, sy = case.get("scale", [1.0, 1.0])
+    if case.get("scale"):
+        import sigpy as _sp
+        Am = Am * sa
+        A = _sp.linop.MatMul(shp, Am) if len(shp) == 2 else _sp.linop.Multiply(shp, sa) * A
+        y = y * sy
+        if kind == "l1":
+            par = par * sa * sy
+        when += "+scaled"
     zz = z if case["z"] else None
     n = Am.shape[1]
     kw = dict(lamda=lam, solver=case["solver"], tol=0, show_pbar=False,
               max_iter=1500 if case["solver"] == "ADMM" else 4000)
     if kind:
         kw["proxg"] = make_prox(kind, shp if G is None else list(G.oshape))
+        if case.get("scale") and kind == "l1":
+            kw["proxg"] = sp.prox.L1Reg(shp, par)
     if G is not None:
         kw["G"] = G
     if zz is not None:
@@ -194,7 +217,12 @@ def run_case(case, seed):
         V("documented-exclusion-not-raised", "this solver cannot handle the combination but no error was raised")
     # reference
     yv, zv = y0.ravel().astype(complex), (z0.ravel().astype(complex) if zz is not None else None)
-    xr, w, Pr, D, gap = convex.solve(Am, yv, kind, par, Gm if kind else None, lam, zv, gap_tol=1e-12)
+    if case.get("scale"):
+        # solve the equivalent unit-scale problem and map back (x = sy/sa * x_unit, objective scales with sy^2)
+        xr, w, Pr, D, gap = convex.solve(Am / sa, yv / sy, kind, (par / (sa * sy)) if kind == "l1" else par, None, lam, zv, gap_tol=1e-12)
+        xr, Pr, D, gap = xr * sy / sa, Pr * sy * sy, D * sy * sy, gap * sy * sy
+    else:
+        xr, w, Pr, D, gap = convex.solve(Am, yv, kind, par, Gm if kind else None, lam, zv, gap_tol=1e-12)
     if not np.isfinite(D):
         raise RuntimeError("reference dual bound not finite")
     xv = np.asarray(x).ravel().astype(complex)
@@ -206,7 +234,7 @@ def run_case(case, seed):
             V("objective-gap", "returned x is not finite: %s" % xv)
         else:
             P = convex.primal(Am.astype(complex), yv, kind, par, Gm if kind else None, lam, zv, xv, feas_tol=1e-6)
-            tol = 1e-5 * max(1.0, abs(D))
+            tol = 1e-5 * max(1.0 if not case.get("scale") else sy * sy, abs(D))
             if not P - D <= tol + max(0.0, min(gap, 1e-9)):
                 V("objective-gap", "documented objective at the returned x is %.9g, certified optimum %.9g (gap %.3g); x=%s, x_ref=%s" % (
                     P, D, P - D, np.array2string(xv, precision=5), np.array2string(xr, precision=5)))
